@@ -126,6 +126,71 @@ func buildManifest(env *Env, v Variant) ([]*Artifact, error) {
 		d := append(append([]byte{}, s...), []byte("<!-- appended -->")...)
 		a.Semantic = append(a.Semantic, SemMut{Class: "append-after-container", Site: "comment-after-root", Data: d, Assert: false, Why: "a comment after the document element is not part of the canonical form"})
 	}
+	// XML signature wrapping around both enveloped signatures (xmlenvwrap.go)
+	if root, err := xParse(s); err == nil {
+		src := string(s)
+		// one byte of an attribute value / of character data, protected by the harness's own map
+		site := func(name string, from int, marker string) (envPayload, bool) {
+			i := strings.Index(src[from:], marker)
+			if i < 0 {
+				return envPayload{}, false
+			}
+			off := from + i + len(marker)
+			if a.Map.Static(off).Class != Protected {
+				return envPayload{}, false
+			}
+			to := byte('A')
+			if src[off] == 'A' {
+				to = 'B'
+			}
+			return envPayload{Name: name, Off: off, To: to}, true
+		}
+		var notes []string
+		if osig := root.child("Signature"); osig != nil {
+			var ps []envPayload
+			if p, ok := site("dependentAssembly-codebase", 0, ` codebase="`); ok {
+				ps = append(ps, p)
+			}
+			if p, ok := site("file-hash-DigestValue", 0, `<dsig:DigestValue>`); ok {
+				ps = append(ps, p)
+			}
+			w, n := envelopedWrapping(src, root, osig, "outer", ps)
+			a.Semantic = append(a.Semantic, w...)
+			notes = append(notes, n...)
+			// the license and its own enveloped signature
+			var lic, isig *xNode
+			if ki := osig.child("KeyInfo"); ki != nil {
+				if rd := ki.child("RelData"); rd != nil {
+					lic = rd.child("license")
+				}
+			}
+			if lic != nil {
+				if iss := lic.child("issuer"); iss != nil {
+					isig = iss.child("Signature")
+				}
+			}
+			if isig != nil {
+				var ps []envPayload
+				if p, ok := site("license-ManifestInformation-Hash", lic.Start, ` Hash="`); ok {
+					ps = append(ps, p)
+				}
+				if p, ok := site("license-X509SubjectName", lic.Start, `<as:X509SubjectName>`); ok {
+					ps = append(ps, p)
+				}
+				w, n := envelopedWrapping(src, lic, isig, "license", ps)
+				a.Semantic = append(a.Semantic, w...)
+				notes = append(notes, n...)
+			} else {
+				notes = append(notes, "sig-wrapping (license): license signature not found")
+			}
+		} else {
+			notes = append(notes, "sig-wrapping (outer): Signature not found")
+		}
+		a.Notes = append(a.Notes, notes...)
+		for _, n := range notes {
+			semSkipped = append(semSkipped, a.ID()+": "+n)
+		}
+	}
 	// certificates of the inner signature
 	{
 		x := string(s)
